@@ -189,6 +189,18 @@ Lemma decomposition_char s :
   decomposition s (segments s) /\ forall l, decomposition s l -> l = segments s.
 Proof. split; [apply segments_decomposition|apply decomposition_unique]. Qed.
 
+Lemma forallb_firstn_gen (f : N -> bool) n l : forallb f l = true -> forallb f (firstn n l) = true.
+Proof.
+  revert n; induction l as [|x l IH]; intros [|n] H; simpl; try reflexivity.
+  simpl in H. apply andb_true_iff in H as [H1 H2]. rewrite H1. simpl. apply IH. exact H2.
+Qed.
+
+Lemma forallb_skipn_gen (f : N -> bool) n l : forallb f l = true -> forallb f (skipn n l) = true.
+Proof.
+  revert n; induction l as [|x l IH]; intros [|n] H; simpl; try reflexivity; try exact H.
+  simpl in H. apply andb_true_iff in H as [_ H2]. apply IH. exact H2.
+Qed.
+
 (* ---------- extract_tokens = the admissible runs of the decomposition ---------- *)
 
 Fixpoint seg_tokens (l : list seg) (i : N) : list (N * N) :=
@@ -198,8 +210,102 @@ Fixpoint seg_tokens (l : list seg) (i : N) : list (N * N) :=
   | Run r :: t => (if admissible (len r) then [(i, i + len r)] else []) ++ seg_tokens t (i + len r)
   end.
 
+(* ---------- the pieces of an over-long run ---------- *)
+
+Lemma piece_bounds n :
+  max_secret_length < n ->
+  admissible (N.min max_secret_length (n - min_secret_length)) = true /\
+  0 < N.min max_secret_length (n - min_secret_length) /\
+  N.min max_secret_length (n - min_secret_length) < n /\
+  min_secret_length <= n - N.min max_secret_length (n - min_secret_length).
+Proof. unfold admissible, max_secret_length, min_secret_length. lia. Qed.
+
+Lemma len_firstn k (r : list N) : N.of_nat k <= len r -> len (firstn k r) = N.of_nat k.
+Proof. unfold len. rewrite firstn_length. lia. Qed.
+
+Lemma len_skipn k (r : list N) : len (skipn k r) = len r - N.of_nat k.
+Proof. unfold len. rewrite skipn_length. lia. Qed.
+
+Lemma flat_map_run_pieces_fuel fuel : forall r, concat (pieces_fuel fuel r) = r.
+Proof.
+  induction fuel as [|f IH]; intro r; simpl; [apply app_nil_r|].
+  destruct (max_secret_length <? len r); simpl; [|apply app_nil_r].
+  rewrite IH. apply firstn_skipn.
+Qed.
+
+Lemma concat_pieces r : concat (pieces r) = r.
+Proof. unfold pieces. destruct split_long_runs; [apply flat_map_run_pieces_fuel|simpl; apply app_nil_r]. Qed.
+
+Lemma pieces_fuel_wf fuel : forall r,
+  r <> [] -> forallb is_secret_char r = true ->
+  forallb seg_wf (map Run (pieces_fuel fuel r)) = true.
+Proof.
+  induction fuel as [|f IH]; intros r Hne Hall.
+  - simpl. rewrite Hall. destruct r; [contradiction|reflexivity].
+  - simpl. destruct (max_secret_length <? len r) eqn:E.
+    2:{ simpl. rewrite Hall. destruct r; [contradiction|reflexivity]. }
+    apply N.ltb_lt in E. destruct (piece_bounds _ E) as (_ & Hpos & Hlt & _).
+    set (k := N.to_nat (N.min max_secret_length (len r - min_secret_length))) in *.
+    assert (Hk : (0 < k < length r)%nat) by (unfold k, len in *; lia).
+    cbn [map forallb seg_wf]. rewrite (forallb_firstn_gen _ k r Hall).
+    assert (firstn k r <> []) by (destruct r; [contradiction|destruct k; [lia|discriminate]]).
+    destruct (firstn k r) eqn:Ef; [contradiction|]. cbn [nilb negb andb].
+    apply IH; [|apply forallb_skipn_gen; exact Hall].
+    intro Hs. assert (length (skipn k r) = 0%nat) by (rewrite Hs; reflexivity). rewrite skipn_length in H0. lia.
+Qed.
+
+Lemma pieces_wf r : r <> [] -> forallb is_secret_char r = true -> forallb seg_wf (map Run (pieces r)) = true.
+Proof.
+  intros Hne Hall. unfold pieces. destruct split_long_runs; [apply pieces_fuel_wf; assumption|].
+  simpl. rewrite Hall. destruct r; [contradiction|reflexivity].
+Qed.
+
+(* every piece of a run of at least MIN bytes has an admissible length: the whole run is examined *)
+Lemma pieces_fuel_admissible fuel : forall r,
+  (length r <= fuel)%nat -> min_secret_length <= len r ->
+  Forall (fun pc => admissible (len pc) = true) (pieces_fuel fuel r).
+Proof.
+  induction fuel as [|f IH]; intros r Hf Hmin.
+  - exfalso. unfold len, min_secret_length in Hmin. lia.
+  - simpl. destruct (max_secret_length <? len r) eqn:E.
+    + apply N.ltb_lt in E. destruct (piece_bounds _ E) as (Hadm & Hpos & Hlt & Hrest).
+      set (kk := N.min max_secret_length (len r - min_secret_length)) in *.
+      constructor.
+      * rewrite len_firstn; rewrite N2Nat.id; [exact Hadm|lia].
+      * apply IH; [rewrite skipn_length; unfold len in *; lia|].
+        rewrite len_skipn, N2Nat.id. exact Hrest.
+    + constructor; [|constructor]. unfold admissible. apply N.ltb_ge in E. lia.
+Qed.
+
+(* ---------- extract_tokens = the admissible pieces of the decomposition ---------- *)
+
+Lemma cut_long_pieces fuel : forall r i L ps st m,
+  (length r <= fuel)%nat ->
+  cut_long fuel i (len r) = (ps, (st, m)) ->
+  seg_tokens (map Run (pieces_fuel fuel r) ++ L) i
+  = ps ++ (if admissible m then [(st, st + m)] else []) ++ seg_tokens L (i + len r).
+Proof.
+  induction fuel as [|f IH]; intros r i L ps st m Hf H.
+  - simpl in H. inversion H; subst. reflexivity.
+  - simpl in H. simpl pieces_fuel. destruct (max_secret_length <? len r) eqn:E.
+    + apply N.ltb_lt in E. destruct (piece_bounds _ E) as (Hadm & Hpos & Hlt & Hrest).
+      set (kk := N.min max_secret_length (len r - min_secret_length)) in *.
+      destruct (cut_long f (i + kk) (len r - kk)) as [ps' last'] eqn:Ec. inversion H; subst ps last'. clear H.
+      assert (Hlf : len (firstn (N.to_nat kk) r) = kk) by (rewrite len_firstn; rewrite N2Nat.id; lia).
+      assert (Hls : len (skipn (N.to_nat kk) r) = len r - kk) by (rewrite len_skipn, N2Nat.id; reflexivity).
+      cbn [map app seg_tokens]. rewrite Hlf, Hadm. cbn [app]. f_equal.
+      rewrite (IH (skipn (N.to_nat kk) r) (i + kk) L ps' st m).
+      * rewrite Hls. replace (i + kk + (len r - kk)) with (i + len r) by lia. reflexivity.
+      * rewrite skipn_length. unfold len in *. lia.
+      * rewrite Hls. exact Ec.
+    + inversion H; subst. cbn [map app seg_tokens]. reflexivity.
+Qed.
+
+Lemma refine_cons_run r t : refine (Run r :: t) = map Run (pieces r) ++ refine t.
+Proof. reflexivity. Qed.
+
 Lemma tokens_from_segments fuel : forall s i,
-  (length s <= fuel)%nat -> tokens_from fuel s i = seg_tokens (segments s) i.
+  (length s <= fuel)%nat -> tokens_from fuel s i = seg_tokens (refine (segments s)) i.
 Proof.
   induction fuel as [|f IH]; intros s i Hlen.
   - destruct s; [reflexivity|simpl in Hlen; lia].
@@ -209,17 +315,22 @@ Proof.
       destruct (take_run_spec _ _ _ ET) as (Hs & Hall & Ht).
       destruct (take_run_head _ _ _ _ E ET) as (r' & ->).
       rewrite Hs. rewrite segments_run; [|discriminate|exact Hall|exact Ht].
-      cbn [seg_tokens]. f_equal. apply IH.
-      assert (length (c :: s) = length ((c :: r') ++ t)) by (rewrite Hs; reflexivity).
-      rewrite app_length in H. simpl in H, Hlen. lia.
+      rewrite refine_cons_run.
+      assert (Hlt : (length t <= f)%nat).
+      { assert (length (c :: s) = length ((c :: r') ++ t)) by (rewrite Hs; reflexivity).
+        rewrite app_length in H. simpl in H, Hlen. lia. }
+      unfold pieces. destruct split_long_runs.
+      * destruct (cut_long (length (c :: r')) i (len (c :: r'))) as [ps [st m]] eqn:Ec.
+        rewrite (cut_long_pieces _ _ _ _ _ _ _ (le_n _) Ec). rewrite (IH t _ Hlt). reflexivity.
+      * cbn [map app seg_tokens]. rewrite (IH t _ Hlt). reflexivity.
     + rewrite IH by (simpl in Hlen; lia).
-      simpl. rewrite E. destruct (segments s) as [|[g|r] t]; cbn [seg_tokens].
+      simpl segments. rewrite E. destruct (segments s) as [|[g|r] t]; cbn [refine flat_map app seg_tokens].
       * reflexivity.
       * rewrite len_cons. f_equal. lia.
       * rewrite len_cons, len_nil. replace (i + (1 + 0)) with (i + 1) by lia. reflexivity.
 Qed.
 
-Lemma extract_tokens_segments s : extract_tokens s = seg_tokens (segments s) 0.
+Lemma extract_tokens_segments s : extract_tokens s = seg_tokens (refine (segments s)) 0.
 Proof. apply tokens_from_segments. lia. Qed.
 
 (* ---------- the filter through the classifier ---------- *)
@@ -364,8 +475,49 @@ Proof.
   simpl in H3. apply andb_true_iff in H3 as [H3 _]. apply negb_true_iff in H3. exact H3.
 Qed.
 
+(* the same conditions for lists that need not alternate (runs cut into pieces): every segment well formed,
+   and the byte after a run is not a UTF-8 continuation byte *)
+Fixpoint segs_cont_ok2 (l : list seg) : bool :=
+  match l with
+  | [] => true
+  | a :: t =>
+      (match a with
+       | Run _ => match flat t with d :: _ => negb (is_cont d) | [] => true end
+       | Gap _ => true
+       end) && segs_cont_ok2 t
+  end.
+
+Definition good2 (l : list seg) : Prop := forallb seg_wf l = true /\ segs_cont_ok2 l = true.
+
+Lemma good2_tail a l : good2 (a :: l) -> good2 l.
+Proof.
+  intros (H1 & H2). simpl in H1, H2. apply andb_true_iff in H1 as [_ H1]. apply andb_true_iff in H2 as [_ H2].
+  split; assumption.
+Qed.
+
+Lemma good2_run_next r t :
+  good2 (Run r :: t) ->
+  r <> [] /\ forallb is_secret_char r = true /\
+  match flat t with [] => True | d :: _ => is_cont d = false end.
+Proof.
+  intros (H1 & H2). simpl in H1. apply andb_true_iff in H1 as [Hr _].
+  apply andb_true_iff in Hr as [Hne Hall]. split; [destruct r; [discriminate|discriminate]|].
+  split; [exact Hall|]. cbn [segs_cont_ok2] in H2. apply andb_true_iff in H2 as [H2 _].
+  destruct (flat t); [exact I|]. apply negb_true_iff in H2. exact H2.
+Qed.
+
+Lemma good_good2 l : good l -> good2 l.
+Proof.
+  induction l as [|a t IH]; intro Hg; [split; reflexivity|].
+  pose proof (IH (good_tail _ _ Hg)) as (_ & I2). split; [exact (proj1 Hg)|].
+  cbn [segs_cont_ok2]. rewrite I2, andb_true_r.
+  destruct a as [g|r]; [reflexivity|].
+  destruct (good_run_next _ _ Hg) as (_ & _ & Hn). destruct (flat t); [reflexivity|].
+  rewrite Hn. reflexivity.
+Qed.
+
 Lemma rebuild_spec isr : forall l pre pend acc text,
-  good l ->
+  good2 l ->
   text = pre ++ pend ++ flat l ->
   char_boundary text (len pre) = true ->
   rebuild text (flag_tokens isr l (len pre + len pend)) (len pre) acc
@@ -377,7 +529,7 @@ Proof.
     rewrite slice_ok; [| lia | lia | exact Hb | apply boundary_len].
     replace (cut text (len pre) (len text)) with pend; [rewrite app_nil_r; reflexivity|].
     symmetry. rewrite Hlt, Htext. apply cut_mid.
-  - pose proof (good_tail _ _ Hgood) as Hgt.
+  - pose proof (good2_tail _ _ Hgood) as Hgt.
     assert (Hskip : forall b, seg_bytes a = b -> flat (a :: t) = b ++ flat t) by (intros b <-; reflexivity).
     assert (Hcopy : flag_tokens isr (a :: t) (len pre + len pend) = flag_tokens isr t (len pre + len pend + len (seg_bytes a))
                     -> redact_seg isr a = seg_bytes a ->
@@ -392,7 +544,7 @@ Proof.
     + apply Hcopy; reflexivity.
     + destruct (flagged isr r) eqn:Hf.
       2:{ apply Hcopy; cbn [flag_tokens redact_seg seg_bytes]; rewrite Hf; reflexivity. }
-      destruct (good_run_next _ _ Hgood) as (Hne & Hall & Hnext).
+      destruct (good2_run_next _ _ Hgood) as (Hne & Hall & Hnext).
       assert (Hadm : admissible (len r) = true) by (unfold flagged in Hf; apply andb_true_iff in Hf; tauto).
       cbn [flag_tokens]. rewrite Hf. cbn [app rebuild].
       set (i := len pre + len pend).
@@ -471,43 +623,112 @@ Proof.
   apply cont_ok_segs; [apply segments_wf|]. rewrite flat_segments. exact H.
 Qed.
 
+Lemma cont_ok_segs2 : forall l,
+  forallb seg_wf l = true -> cont_ok (flat l) = true -> segs_cont_ok2 l = true.
+Proof.
+  induction l as [|a t IH]; intros Hwf Hc; [reflexivity|].
+  simpl in Hwf. apply andb_true_iff in Hwf as [Ha Hwf].
+  assert (Hct : cont_ok (flat t) = true) by (unfold flat in *; simpl in Hc; eapply cont_ok_app_r; exact Hc).
+  cbn [segs_cont_ok2]. rewrite (IH Hwf Hct), andb_true_r.
+  destruct a as [g|r]; [reflexivity|].
+  destruct (flat t) as [|d rest] eqn:Eft; [reflexivity|]. apply negb_true_iff.
+  simpl in Ha. apply andb_true_iff in Ha as [Hne Hall].
+  destruct (exists_last (l := r)) as (r0 & x & ->); [destruct r; [discriminate|discriminate]|].
+  rewrite forallb_app in Hall. apply andb_true_iff in Hall as [_ Hx]. simpl in Hx. rewrite andb_true_r in Hx.
+  unfold flat in Hc, Eft. simpl in Hc. rewrite Eft, <- app_assoc in Hc. simpl in Hc.
+  eapply cont_ok_mid; eauto.
+Qed.
+
+(* ---------- the refined decomposition ---------- *)
+
+Lemma flat_refine l : flat (refine l) = flat l.
+Proof.
+  unfold flat, refine. induction l as [|[g|r] t IH]; simpl; [reflexivity|rewrite IH; reflexivity|].
+  rewrite flat_map_app, IH. f_equal.
+  rewrite <- (concat_pieces r) at 2. generalize (pieces r). intro ps.
+  induction ps as [|p ps IHp]; simpl; [reflexivity|rewrite IHp; reflexivity].
+Qed.
+
+Lemma refine_wf l : forallb seg_wf l = true -> forallb seg_wf (refine l) = true.
+Proof.
+  unfold refine. induction l as [|a t IH]; intro H; [reflexivity|].
+  simpl in H. apply andb_true_iff in H as [Ha Ht]. simpl. rewrite forallb_app, (IH Ht), andb_true_r.
+  destruct a as [g|r]; [simpl; rewrite andb_true_r; exact Ha|].
+  simpl in Ha. apply andb_true_iff in Ha as [Hne Hall]. apply pieces_wf; [destruct r; [discriminate|discriminate]|exact Hall].
+Qed.
+
+Lemma refine_good2 l : forallb seg_wf l = true -> cont_ok (flat l) = true -> good2 (refine l).
+Proof.
+  intros Hwf Hc. split; [apply refine_wf; exact Hwf|].
+  apply cont_ok_segs2; [apply refine_wf; exact Hwf|rewrite flat_refine; exact Hc].
+Qed.
+
+Definition short_runs (l : list seg) : Prop := forall r, In (Run r) l -> len r <= max_secret_length.
+
+Lemma pieces_short r : len r <= max_secret_length -> pieces r = [r].
+Proof.
+  intro H. unfold pieces. destruct split_long_runs; [|reflexivity].
+  destruct (length r); simpl; [reflexivity|]. replace (max_secret_length <? len r) with false by lia. reflexivity.
+Qed.
+
+Lemma refine_short l : short_runs l -> refine l = l.
+Proof.
+  unfold refine. induction l as [|a t IH]; intro H; [reflexivity|].
+  simpl. rewrite IH by (intros r Hr; apply H; right; exact Hr).
+  destruct a as [g|r]; [reflexivity|]. rewrite pieces_short by (apply H; left; reflexivity). reflexivity.
+Qed.
+
 (* ---------- redact_text on a decomposed text ---------- *)
 
 Lemma rebuild_spec0 isr l :
-  good l -> rebuild (flat l) (flag_tokens isr l 0) 0 [] = Ok (flat_map (redact_seg isr) l).
+  good2 l -> rebuild (flat l) (flag_tokens isr l 0) 0 [] = Ok (flat_map (redact_seg isr) l).
 Proof.
   intro Hg. exact (rebuild_spec isr l [] [] [] (flat l) Hg eq_refl (boundary_0 _)).
 Qed.
 
 Lemma redact_flat isr l :
-  good l -> redact_text isr (flat l) = Ok (flat_map (redact_seg isr) l, count_flagged isr l).
+  forallb seg_wf l = true -> alternating l = true -> good2 (refine l) ->
+  redact_text isr (flat l)
+  = Ok (flat_map (redact_seg isr) (refine l), count_flagged isr (refine l)).
 Proof.
-  intro Hg. pose proof Hg as (Hwf & Halt & _).
+  intros Hwf Halt Hg.
   unfold redact_text. rewrite extract_tokens_segments, (segments_flat l Hwf Halt).
-  pose proof (filter_random_segments isr l []) as Hf. simpl app in Hf. change (len []) with 0 in Hf.
-  rewrite Hf. rewrite <- (flag_tokens_length isr l 0).
-  destruct (flag_tokens isr l 0) as [|p ps] eqn:E.
-  - rewrite (flag_tokens_nil isr l 0 E). reflexivity.
-  - rewrite <- E, (rebuild_spec0 isr l Hg). reflexivity.
+  pose proof (filter_random_segments isr (refine l) []) as Hf. simpl app in Hf. change (len []) with 0 in Hf.
+  rewrite flat_refine in Hf. rewrite Hf. rewrite <- (flag_tokens_length isr (refine l) 0).
+  destruct (flag_tokens isr (refine l) 0) as [|p ps] eqn:E.
+  - rewrite (flag_tokens_nil isr (refine l) 0 E), flat_refine. reflexivity.
+  - rewrite <- E. pose proof (rebuild_spec0 isr (refine l) Hg) as Hr. rewrite flat_refine in Hr.
+    rewrite Hr. reflexivity.
 Qed.
 
 Lemma redact_text_segments isr s :
   cont_ok s = true ->
-  redact_text isr s = Ok (flat_map (redact_seg isr) (segments s), count_flagged isr (segments s)).
+  redact_text isr s = Ok (redact_spec isr s, count_flagged isr (refine (segments s))).
 Proof.
-  intro H. rewrite <- (flat_segments s) at 1. apply redact_flat. apply segments_good. exact H.
+  intro H. rewrite <- (flat_segments s) at 1. unfold redact_spec.
+  apply redact_flat; [apply segments_wf|apply segments_alternating|].
+  apply refine_good2; [apply segments_wf|rewrite flat_segments; exact H].
 Qed.
 
 Lemma redact_complete isr s :
   cont_ok s = true ->
   exists segs, decomposition s segs /\
-    redact_text isr s = Ok (flat_map (redact_seg isr) segs, count_flagged isr segs).
+    redact_text isr s = Ok (flat_map (redact_seg isr) (refine segs), count_flagged isr (refine segs)).
 Proof.
   intro H. exists (segments s). split; [apply segments_decomposition|]. apply redact_text_segments. exact H.
 Qed.
 
 Lemma redact_no_panic isr s : cont_ok s = true -> redact_text isr s <> Panic.
 Proof. intro H. rewrite (redact_text_segments isr s H). discriminate. Qed.
+
+(* what `refine` is: the same bytes; every piece of a run of at least MIN bytes has an admissible length,
+   i.e. no part of such a run escapes the classifier *)
+Lemma pieces_admissible r :
+  min_secret_length <= len r -> Forall (fun pc => admissible (len pc) = true) (pieces r).
+Proof.
+  intro H. unfold pieces. change split_long_runs with true. cbv iota.
+  apply pieces_fuel_admissible; [apply le_n|exact H].
+Qed.
 
 (* ---------- the mask ---------- *)
 
@@ -714,22 +935,52 @@ Proof.
     + cbn [app flat_map redact_seg seg_bytes filter is_flagged_seg]. rewrite Hf, IH1, IH2'. split; reflexivity.
 Qed.
 
-Lemma redact_idempotent isr s out n :
-  cont_ok s = true -> redact_text isr s = Ok (out, n) -> redact_text isr out = Ok (out, 0).
+Lemma vis_le_max : redact_visible_chars <= max_secret_length.
+Proof. vm_compute. discriminate. Qed.
+
+Lemma expand_short isr l : short_runs l -> short_runs (flat_map (expand isr) l).
 Proof.
-  intros Hc H. rewrite (redact_text_segments isr s Hc) in H. inversion H; subst out n. clear H.
-  rewrite <- flat_expand.
+  intros H r Hr. apply in_flat_map in Hr as (sg & Hsg & Hin).
+  pose proof vis_le_max as Hv. pose proof vis_eq as Hve.
+  destruct sg as [g|r0]; cbn [expand] in Hin.
+  - destruct Hin as [Hin|[]]. discriminate.
+  - destruct (flagged isr r0).
+    + destruct Hin as [Hin|[Hin|[Hin|[]]]]; try discriminate.
+      * assert (Er : r = firstn vis r0) by congruence. rewrite Er. unfold len. rewrite firstn_length. lia.
+      * assert (Er : r = skipn (length r0 - vis) r0) by congruence. rewrite Er. unfold len at 1.
+        rewrite skipn_length. lia.
+    + destruct Hin as [Hin|[]]. assert (Er : r = r0) by congruence. rewrite Er. apply H. exact Hsg.
+Qed.
+
+(* idempotent on texts without over-long runs; with an over-long run the masked pieces form new, shorter
+   runs together with their unmasked neighbours, which the classifier may judge differently *)
+Lemma redact_idempotent isr s out n :
+  cont_ok s = true -> short_runs (segments s) ->
+  redact_text isr s = Ok (out, n) -> redact_text isr out = Ok (out, 0).
+Proof.
+  intros Hc Hshort H. rewrite (redact_text_segments isr s Hc) in H. inversion H; subst out n. clear H.
+  unfold redact_spec. rewrite (refine_short _ Hshort), <- flat_expand.
   destruct (expand_good isr (segments s) (segments_good s Hc)) as (Hg & _).
-  rewrite (redact_flat isr _ Hg).
-  destruct (expand_unflagged isr (segments s)) as (E1 & E2). rewrite E1, E2. reflexivity.
+  pose proof (refine_short _ (expand_short isr _ Hshort)) as Er.
+  pose proof Hg as (Hwf & Halt & _).
+  rewrite (redact_flat isr _ Hwf Halt); [|rewrite Er; apply good_good2; exact Hg].
+  rewrite Er. destruct (expand_unflagged isr (segments s)) as (E1 & E2). rewrite E1, E2. reflexivity.
 Qed.
 
 (* ---------- messages ---------- *)
 
+Lemma redact_texts_ok isr : forall ts, Forall (fun t => cont_ok t = true) ts ->
+  exists k, redact_texts isr ts = Ok (map (redact_spec isr) ts, k).
+Proof.
+  induction ts as [|t ts IH]; intro H; [simpl; eauto|].
+  inversion H; subst. destruct (IH H3) as (k & E). simpl.
+  rewrite (redact_text_segments isr t H2), E. eauto.
+Qed.
+
 Lemma redact_msg_ok isr m : text_ok m -> exists k, redact_msg isr m = Ok (redact_msg_spec isr m, k).
 Proof.
   intro H. unfold redact_msg, redact_msg_spec. destruct (touched m); [|eauto].
-  rewrite (redact_text_segments isr _ H). eauto.
+  destruct (redact_texts_ok isr _ H) as (k & E). rewrite E. eauto.
 Qed.
 
 Lemma redact_msgs_ok isr : forall ms, Forall text_ok ms ->
@@ -760,10 +1011,10 @@ Proof. split; reflexivity. Qed.
 
 Lemma inadmissible_unchanged isr s :
   cont_ok s = true ->
-  (forall r, In (Run r) (segments s) -> admissible (len r) = false) ->
+  (forall r, In (Run r) (refine (segments s)) -> admissible (len r) = false) ->
   redact_text isr s = Ok (s, 0).
 Proof.
-  intros Hc H. rewrite (redact_text_segments isr s Hc).
+  intros Hc H. rewrite (redact_text_segments isr s Hc). unfold redact_spec.
   assert (E : forall l, (forall r, In (Run r) l -> admissible (len r) = false) ->
               flat_map (redact_seg isr) l = flat l /\ count_flagged isr l = 0).
   { unfold count_flagged, flat. induction l as [|a t IH]; intro Ht; [split; reflexivity|].
@@ -772,7 +1023,7 @@ Proof.
     destruct a as [g|r]; cbn [flat_map redact_seg seg_bytes filter is_flagged_seg].
     - rewrite I1, I2'. split; reflexivity.
     - unfold flagged. rewrite (Ht r (or_introl eq_refl)). cbn [andb]. rewrite I1, I2'. split; reflexivity. }
-  destruct (E _ H) as (E1 & E2). rewrite E1, E2, flat_segments. reflexivity.
+  destruct (E _ H) as (E1 & E2). rewrite E1, E2, flat_refine, flat_segments. reflexivity.
 Qed.
 
 (* ---------- witnesses ---------- *)
@@ -792,31 +1043,34 @@ Definition all_random (_ : list N) : bool := true.
 Lemma wit_text_redacted : cont_ok wit_text = true /\ redact_text all_random wit_text = Ok (wit_text_masked, 1).
 Proof. split; vm_compute; reflexivity. Qed.
 
+(* a run of MAX+1 bytes: it is examined as two pieces (MAX+1-MIN and MIN bytes), both masked when flagged *)
 Definition wit_long : list N := repeat 65 (S (N.to_nat max_secret_length)).
+Definition wit_long_masked : list N :=
+  [65; 65; 65; 65] ++ mask_middle ++ [65; 65; 65; 65] ++ [65; 65; 65; 65] ++ mask_middle ++ [65; 65; 65; 65].
 
-Lemma long_token_refuted :
-  forallb is_secret_char wit_long = true /\ len wit_long = max_secret_length + 1 /\
-  forall isr, redact_text isr wit_long = Ok (wit_long, 0).
-Proof.
-  split; [vm_compute; reflexivity|]. split; [vm_compute; reflexivity|].
-  intro isr. apply inadmissible_unchanged; [vm_compute; reflexivity|].
-  intros r Hr. vm_compute in Hr. destruct Hr as [Hr|[]]. inversion Hr. vm_compute. reflexivity.
-Qed.
+Lemma long_run_masked :
+  len wit_long = max_secret_length + 1 /\
+  map (@length N) (pieces wit_long)
+    = [N.to_nat (max_secret_length + 1 - min_secret_length); N.to_nat min_secret_length] /\
+  redact_text all_random wit_long = Ok (wit_long_masked, 2).
+Proof. split; [|split]; vm_compute; reflexivity. Qed.
 
-Definition wit_tool_msg : msg := MToolUse [98; 97; 115; 104] wit_key.
+(* a ToolUse message: every string leaf of its input is redacted, shape and name untouched *)
+Definition wit_tool_msg : msg := MToolUse [66; 97; 115; 104] [123; 125] [wit_text; [108; 115]].
+Definition wit_tool_msg_masked : msg := MToolUse [66; 97; 115; 104] [123; 125] [wit_text_masked; [108; 115]].
 
-Lemma tooluse_refuted :
-  admissible (len wit_key) = true /\ forallb is_secret_char wit_key = true /\
-  infix wit_key (payload wit_tool_msg) /\
-  forall isr, isr wit_key = true -> redact_msgs isr [wit_tool_msg] = Ok ([wit_tool_msg], 0).
-Proof.
-  split; [reflexivity|]. split; [reflexivity|]. split; [exists [], []; reflexivity|].
-  intros isr _. reflexivity.
-Qed.
+Lemma tooluse_redacted :
+  (forall n sh ls, touched (MToolUse n sh ls) = true) /\
+  redact_msgs all_random [wit_tool_msg] = Ok ([wit_tool_msg_masked], 1).
+Proof. split; [intros; reflexivity|vm_compute; reflexivity]. Qed.
 
 Lemma user_msg_masked :
   redact_msgs all_random [MUser wit_text] = Ok ([MUser wit_text_masked], 1).
 Proof. vm_compute. reflexivity. Qed.
+
+(* every variant of the enum is rewritten: no message is copied without being scanned *)
+Lemma all_variants_touched : forall m, touched m = true.
+Proof. intros [t|t|t|t|n sh ls]; reflexivity. Qed.
 
 Lemma mask_hides_all t :
   forallb is_secret_char t = true -> admissible (len t) = true ->
